@@ -655,14 +655,16 @@ func c17SubContext(c *Ctx, r *Report) {
 		ast.Inspect(fi.Decl.Body, func(n ast.Node) bool {
 			switch t := n.(type) {
 			case *ast.AssignStmt:
-				if len(t.Lhs) == 1 && len(t.Rhs) == 1 {
-					if ix, ok := ast.Unparen(t.Lhs[0]).(*ast.IndexExpr); ok && fieldNamed(info, ix.X, "vals") && len(params) == 3 {
-						k, _ := constInt(info, ix.Index)
-						if k == 0 && identObj(info, t.Rhs[0]) == params[1] {
-							ok0 = true
-						}
-						if k == 1 && identObj(info, t.Rhs[0]) == params[2] {
-							ok1 = true
+				if len(t.Lhs) == len(t.Rhs) {
+					for i := range t.Lhs {
+						if ix, ok := ast.Unparen(t.Lhs[i]).(*ast.IndexExpr); ok && fieldNamed(info, ix.X, "vals") && len(params) == 3 {
+							k, _ := constInt(info, ix.Index)
+							if k == 0 && identObj(info, t.Rhs[i]) == params[1] {
+								ok0 = true
+							}
+							if k == 1 && identObj(info, t.Rhs[i]) == params[2] {
+								ok1 = true
+							}
 						}
 					}
 				}
